@@ -190,7 +190,8 @@ def _dump_grammar(g):
         elif type(r) is RegExRecognizer:
             if t.keyword:
                 rx = r._regex
-                val = rx[2:-2] if rx.startswith("\\b") and rx.endswith("\\b") else "??" + rx
+                val = rx[2:] if rx.startswith("\\b") else rx
+                val = val[:-2] if val.endswith("\\b") else val
                 terms.append([t.name, 1, val, True, bool(r.ignore_case)])
             else:
                 terms.append([t.name, 2, r._regex, False, bool(r.ignore_case)])
@@ -264,12 +265,16 @@ def _leaves(node, g):
 def _build(text, ic):
     from parglare import Grammar
     from lib import impl
-    try:
-        with impl.time_limit(20):
-            g = Grammar.from_string(text, ignore_case=ic)
-        return g, None
-    except BaseException as e:  # noqa
-        return None, _err_code(e)
+    for limit in (20, 180):          # a loaded machine gets one generous retry
+        try:
+            with impl.time_limit(limit):
+                g = Grammar.from_string(text, ignore_case=ic)
+            return g, None
+        except impl.Timeout as e:
+            err = _err_code(e)
+        except BaseException as e:  # noqa
+            return None, _err_code(e)
+    return None, err
 
 
 def _worker(job):
@@ -317,8 +322,12 @@ def _worker(job):
             res = {}
             for w in job["inputs"]:
                 try:
-                    with impl.time_limit(10):
-                        t = p.parse(w)
+                    try:
+                        with impl.time_limit(10):
+                            t = p.parse(w)
+                    except impl.Timeout:      # loaded machine: one generous retry
+                        with impl.time_limit(90):
+                            t = p.parse(w)
                     res[w] = ["ok", _leaves(t, g)]
                 except parglare.SyntaxError as e:
                     res[w] = ["SyntaxError", e.location.start_position]
@@ -489,6 +498,8 @@ KF_UNESC = "KF-C19-double-unescape"
 def naming_defect_texts(values, rules, terms):
     """inline texts that the naming mechanism cannot handle (identification rule of KF_NAMING)"""
     names = set(n for n, _ in rules) | set(n for n, _, _ in terms) | {"KEYWORD", "LAYOUT", "STOP", "EMPTY"}
+    # a reference to an undeclared name is silently bound to an inline string with that text
+    names |= set(it[1] for _, alts in rules for alt in alts for it in alt if it[0] == "ref")
     return [v for v in values if "." in v or "\n" in v or "\t" in v or v in names]
 
 
@@ -826,7 +837,10 @@ def run(ctx):
         if ft is not None and not is_kwc(fi.get("err")) and not is_kwc(ft.get("err")):
             st["twin_compared"] += 1
             if "err" in ft:
-                if "err" not in fi:
+                if "err" not in fi and bad and o[0] == 0:
+                    kf(KF_NAMING, "inline string(s) %r capture a name of the grammar: the inline form is accepted while the "
+                       "declared form is rejected (%s)" % (bad, ERR_NAMES.get(ft["err"], ft["err"])))
+                elif "err" not in fi:
                     ctx.violation("inline form accepted but the declared form is rejected (%s)"
                                   % ERR_NAMES.get(ft["err"], ft["err"]), dict(rep, twin=ast_text(rules, terms, twin_of(rules))),
                                   key="twin-only-fails")
@@ -979,7 +993,12 @@ def run(ctx):
                         samples.append({"grammar": rep["grammar"], "ignore_case": ic, "input": w, "tokens": got[1]})
         for w in inputs:
             a, b = streams.get(("inline", w)), streams.get(("twin", w))
-            if a is not None and b is not None and a != b:
+            if a is not None and b is not None and a != b and \
+                    ((i, "inline", w) in deviating or (i, "twin", w) in deviating):
+                kf(KF_KWRAW if any(kw_defect(1, v) == KF_KWRAW for v in kwls[("tokast", i)]) else KF_KWBOUND,
+                   "inline and declared forms tokenize %r differently (a deviating keyword recognizer is tried in a "
+                   "different order)" % w)
+            elif a is not None and b is not None and a != b:
                 ctx.violation("inline and declared forms tokenize %r differently: %r vs %r" % (w, a, b),
                               dict(rep, input=w), key="twin-tokens")
         rm = byid.get(("m", i))
